@@ -87,7 +87,7 @@ class EvaluateH(Harness):
         evp = res["evp"]
         top = evp[node.id]
         calls = st["rec"]["args"]
-        return [("evaluate/uses-assume(interpretation)", len(calls) == 2 and all(a is c.d for a in calls)),
+        return [("evaluate/uses-assume(interpretation)", len(calls) >= 2 and all(a is c.d for a in calls)),
                 ("evaluate/post", bounds_eq(res["ev"], want)),
                 ("evaluate_props/post.top", bounds_eq(top, want)),
                 ("evaluate==top-entry", band(res["ev"].lower == top.lower, res["ev"].upper == top.upper))]
